@@ -11,8 +11,15 @@
    computes it for clear != 0.
 
    SCOPE DECISIONS
-   * one mutex, one cv; the cv waiters are native nsync_mu waiters (cv_mu != NULL: no generic-lock callers) and
-     NSYNC_WAIT_N RECORDS: [XWaitN om] is nsync_wait_n (mu, lock, unlock, no-deadline-or-future-deadline, 1, {cv}) with
+   * one mutex, one cv; the cv waiters are native nsync_mu waiters (cv_mu != NULL), GENERIC-INTERFACE waiters ([XWaitG m]:
+     nsync_cv_wait_with_deadline_generic with the caller's own lock / unlock routines -- thin wrappers around nsync_mu_lock /
+     rlock / unlock / runlock of the same mutex, held in mode m; the library cannot recognise the lock: cv_mu == NULL, w->l_type
+     == NULL, no look at the mutex word, is_reader_mu = 0; [w_gen] in the locals, [xg_rec] of the pc) and NSYNC_WAIT_N RECORDS.
+     A generic waiter is a non-reader for nsync_cv_signal / broadcast (l_type == NULL), makes pmu = NULL when it is first on the
+     to_wake_list, and -- since the repair of finding F16, commit f28c99f: `p_w == NULL || p_w->cv_mu != pmu` -- is woken
+     directly, never transferred ([nrec] = xn_rec or xg_rec is that test); it re-acquires through its lock routine (MuModel's
+     LkFast: the model's test is `xferred`, which Properties_C04x.C04x_generic_never_transferred shows false for it).
+     [XWaitN om]: [XWaitN om] is nsync_wait_n (mu, lock, unlock, no-deadline-or-future-deadline, 1, {cv}) with
      mu = NULL (om = None) or with the mutex held in mode m and thin lock / unlock callbacks (om = Some m).  Its record
      (flags = 0: not NSYNC_WAITER_FLAG_MUCV) sits on the cv queue like a waiter, is never transferred to the mutex queue
      (wake_waiters: `p_w == NULL`), counts as a non-reader in nsync_cv_signal / broadcast's all_readers, and as first
@@ -59,14 +66,15 @@ From Coq Require Import List ZArith Bool.
 Import ListNotations.
 Local Open Scope Z_scope.
 
-Inductive xop := XOp (o : op) | XWait (m : mode) | XSignal | XBroadcast | XWaitN (om : option mode).
+Inductive xop := XOp (o : op) | XWait (m : mode) | XSignal | XBroadcast | XWaitN (om : option mode) | XWaitG (m : mode).
 
 (* locals of nsync_cv_wait_with_deadline_generic *)
 Record xwl := mk_xwl {
   w_m : mode;          (* ghost: the mode the client declared (= held on entry) *)
   w_lm : mode;         (* w->l_type / is_reader_mu, computed from the mutex word *)
   w_so : bool;         (* sem_outcome != 0 *)
-  w_out : bool         (* ghost: outcome != 0 (the value the wait returns) *)
+  w_out : bool;        (* ghost: outcome != 0 (the value the wait returns) *)
+  w_gen : bool         (* cv_mu == NULL: the generic interface with the caller's own lock routines (w->cv_mu = NULL, w->l_type = NULL) *)
 }.
 (* locals of wake_waiters *)
 Record kl := mk_kl {
@@ -104,11 +112,16 @@ Inductive xpc :=
 | XnSem (om : option mode)                (* nsync_mu_semaphore_p_with_deadline (&w->sem, min_ntime) *)
 | XnDeq (om : option mode)                (* cv_dequeue: section: still queued? unlink, ATM_STORE (&nw->waiting, 0) *)
 | XnSpin (om : option mode)               (* cv_dequeue: while (ATM_LOAD_ACQ (&nw->waiting) != 0) spin delay *)
-| XnReacq (m : mode).                     (* lock (mu): MuModel steps *)
+| XnReacq (m : mode)
+(* nsync_cv_wait_with_deadline_generic with the caller's own lock / unlock routines *)
+| XgStore (m : mode).                     (* ATM_STORE (&w->nw.waiting, 1); w->cv_mu = NULL; w->l_type = NULL *)                     (* lock (mu): MuModel steps *)
 
 (* the thread's record on the cv (queue or a to_wake_list) is the record of an nsync_wait_n call: flags == 0 *)
 Definition xn_rec (xp : xpc) : bool :=
   match xp with XnUnlock _ | XnReady _ | XnSem _ | XnDeq _ | XnSpin _ => true | _ => false end.
+(* the thread's record on the cv is a waiter struct that is NOT associated with the mutex: cv_mu == NULL, l_type == NULL *)
+Definition xg_rec (xp : xpc) : bool :=
+  match xp with XwUnlock l | XwLoop l | XwSem l | XwLoad6 l | XwConfirm l | XwLoad13 l => w_gen l | _ => false end.
 
 Record xtstate := mk_xt { x_pc : xpc; x_ops : list xop; x_rets : list (mode * option mode) (* ghost, newest first *) }.
 
@@ -144,8 +157,8 @@ Definition set_xpc (xw : xworld) (t : nat) (p : xpc) : xworld :=
 Definition add_xret (xw : xworld) (t : nat) (r : mode * option mode) : xworld :=
   let s := xget xw t in set_xt xw t (mk_xt (x_pc s) (x_ops s) (r :: x_rets s)).
 
-Definition wl_set_so (l : xwl) (b : bool) : xwl := mk_xwl (w_m l) (w_lm l) b (w_out l).
-Definition wl_set_out (l : xwl) (b : bool) : xwl := mk_xwl (w_m l) (w_lm l) (w_so l) b.
+Definition wl_set_so (l : xwl) (b : bool) : xwl := mk_xwl (w_m l) (w_lm l) b (w_out l) (w_gen l).
+Definition wl_set_out (l : xwl) (b : bool) : xwl := mk_xwl (w_m l) (w_lm l) (w_so l) b (w_gen l).
 
 Fixpoint mem_id (r : nat) (l : list nat) : bool :=
   match l with [] => false | x :: t => if Nat.eqb x r then true else mem_id r t end.
@@ -223,7 +236,7 @@ Definition ls_desig (m : mode) : lsl :=
 Definition wake_loop (k : kl) : xpc := match k_wake k with [] => XIdle | _ => XvStore k end.
 
 (* the kind of the record thread p has on the cv *)
-Definition nrec (xw : xworld) (p : nat) : bool := xn_rec (x_pc (xget xw p)).
+Definition nrec (xw : xworld) (p : nat) : bool := xn_rec (x_pc (xget xw p)) || xg_rec (x_pc (xget xw p)).
 Definition xrd (xw : xworld) (p : nat) : bool := negb (nrec xw p) && mode_eqb (wtype (mw xw) p) R.
 
 (* ---------- the step function ---------- *)
@@ -246,6 +259,10 @@ Definition xbegin (xw : xworld) (t : nat) : xworld :=
             set_xpc xw1 t (match held (get (mw xw) t) with
                            | Some m' => if mode_eqb m m' then XnStore0 (Some m) else XCrash 8
                            | None => XCrash 8 end)
+        | XWaitG m =>
+            set_xpc xw1 t (match held (get (mw xw) t) with
+                           | Some m' => if mode_eqb m m' then XgStore m else XCrash 9
+                           | None => XCrash 9 end)
         end
       else xw
   | _, _ => xw
@@ -272,8 +289,8 @@ Definition xstep_thr (xw0 : xworld) (t : nat) (c : choice) : xworld * xev :=
       let is_reader := has old MU_RHELD_IF_NON_ZERO in
       if is_writer then
         if is_reader then (set_xpc xw t (XCrash 6), XMu (EvLoad 1102 old))
-        else (set_xpc (set_mw xw (set_wtype w t W)) t (XwEnq (mk_xwl m W false false)), XMu (EvLoad 1102 old))
-      else if is_reader then (set_xpc (set_mw xw (set_wtype w t R)) t (XwEnq (mk_xwl m R false false)), XMu (EvLoad 1102 old))
+        else (set_xpc (set_mw xw (set_wtype w t W)) t (XwEnq (mk_xwl m W false false false)), XMu (EvLoad 1102 old))
+      else if is_reader then (set_xpc (set_mw xw (set_wtype w t R)) t (XwEnq (mk_xwl m R false false false)), XMu (EvLoad 1102 old))
       else (set_xpc xw t (XCrash 7), XMu (EvLoad 1102 old))
   | XwEnq l =>
       (* under the cv spinlock: pcv->waiters += w; then, spinlock released: nsync_mu_runlock (cv_mu) / unlock (pmu) *)
@@ -418,6 +435,12 @@ Definition xstep_thr (xw0 : xworld) (t : nat) (c : choice) : xworld * xev :=
       if mu_pc_idle (mw xw1) t
       then (set_xpc (add_xret xw1 t (m, held (get (mw xw1) t))) t XIdle, XMu e)
       else (xw1, XMu e)
+  (* --- the generic interface: cv_mu == NULL, so no look at a mutex word, l_type = NULL, is_reader_mu = 0; the release and the
+     re-acquisition go through the caller's routines (thin wrappers around nsync_mu_unlock / runlock / lock / rlock: MuModel steps) --- *)
+  | XgStore m =>
+      let v := nsync_cv_wait_with_deadline_generic_store1_new in
+      let xw1 := set_xferred (set_mw xw (set_waiting w t (negb (v =? 0)))) (fupd (xferred xw) t false) in
+      (set_xpc xw1 t (XwEnq (mk_xwl m m false false true)), XMu (EvStoreWaiting t v))
   end.
 
 Definition xstep (xw : xworld) (a : actor) : xworld * xev :=
